@@ -411,6 +411,10 @@ def run(ctx):
     d5_header(ctx)
     d6_keepalive(ctx)
     d7_who_reads(ctx)
+    ck.rule('C08-D8', 'content coding removal is independent of the segmentation and truncation is detectable: the decoder rules of C19 (format decision on a prefix every first piece contains, decode exactly the content bytes, flush on every framing, zlib errors become protocol errors, eof consulted)')
+    from . import c19
+    from .common import RemapCtx
+    c19.run(RemapCtx(ctx, {'C19-D1': 'C08-D8', 'C19-D2': 'C08-D8', 'C19-D3': 'C08-D8', 'C19-D4': 'C08-D8'}))
 
 
 # =============================================================================== D1
